@@ -152,6 +152,21 @@ def check(ctx):
             stores = [s_ for s_ in walk_own(wl[0]) if isinstance(s_, (ast.Assign, ast.AugAssign)) and norm(s_.targets[0] if isinstance(s_, ast.Assign) else s_.target) == cn]
             ok_acc = chunk is not None and len(ex) == 1 and norm(ex[0].args[0]) == chunk and rets == ['data'] and len(decs) == 1 and len(stores) == 1 and \
                 decs[0][1] is ast.Sub and norm(decs[0][2]) == 'len(%s)' % chunk
+        elif len([c for c in walk_own(wl[0]) if method_call(c, 'recv_into')]) == 1 and not rc:
+            # scheme C: recv_into a preallocated buffer: data = bytearray(size); view = memoryview(data); n = 0;
+            #           while n < size: n += sock.recv_into(view[n:], size - n) - every chunk is written where the previous one ended
+            ri = [c for c in walk_own(wl[0]) if method_call(c, 'recv_into')][0]
+            adds = [aug_form(s_) for s_ in body if aug_form(s_) and aug_form(s_)[1] is ast.Add and isinstance(s_, ast.AugAssign) and s_.value is ri]
+            cn = adds[0][0] if len(adds) == 1 else None
+            st0 = {norm(s_.targets[0]): norm(s_.value) for s_ in rdd.node.body if isinstance(s_, ast.Assign)}
+            ok_loop = cn is not None and _ct(ast.parse('%s < %s' % (cn, sz), mode='eval').body) in conj and st0.get(cn) == '0'
+            ok_req = cn is not None and len(ri.args) == 2 and norm(ri.args[1]).replace(' ', '') == '%s-%s' % (sz, cn)
+            dst = ri.args[0] if ri.args else None
+            at_off = isinstance(dst, ast.Subscript) and isinstance(dst.slice, ast.Slice) and dst.slice.lower is not None and norm(dst.slice.lower) == cn and dst.slice.step is None and \
+                (dst.slice.upper is None or norm(dst.slice.upper) == sz)
+            base = norm(dst.value) if at_off else None
+            ok_acc = at_off and cn is not None and len(body) == 1 and rets == ['data'] and st0.get('data') == 'bytearray(%s)' % sz and \
+                (base == 'memoryview(data)' or st0.get(base) == 'memoryview(data)')
         else:
             # a read-ahead buffer kept on the transport: bytes beyond the requested size survive the call - and a disconnect, unless
             # connect() / disconnect() empties it.  Bytes of a dead stream must not prefix the next one.
@@ -188,6 +203,18 @@ def check(ctx):
     recv = norm(g3.expand_locals(puts[0][0], puts[0][1].func.value, pure_only=False, keep=('packet',))) if len(puts) == 1 else None
     ok = len(puts) == 1 and recv in ('self._rxQueues[packet.function.value]', 'self._rxQueues.get(packet.function.value)') and [norm(a) for a in puts[0][1].args] == ['packet']
     ctx.inst('R5', run, 'route-by-own-function', ok, 'a packet is put on the queue keyed by its own function value; found %s' % [norm(c) for _, c in puts])
+    # ... whenever that queue exists: no other condition (a fill level, a rate) decides whether a received packet is queued
+    kq = (g3.fact_keys_at(puts[0][0]) - g3.sentinel_keys_at(puts[0][0])) if len(puts) == 1 else set()
+    def is_lookup(k):
+        # `q is not None` where q is the result of looking the packet's function up with .get()
+        if k[1] or not k[0].startswith('None is '):
+            return False
+        t = k[0][8:]
+        if t.isidentifier():
+            t = norm(g3.expand_locals(puts[0][0], ast.Name(id=t, ctx=ast.Load()), pure_only=False, keep=('packet',)))
+        return t == 'self._rxQueues.get(packet.function.value)'
+    extra5 = sorted(k for k in kq if not (k == fact_key('self._connected', True) or (k[1] and k[0].endswith(' in self._rxQueues')) or is_lookup(k)))
+    ctx.inst('R5', run, 'every-packet-of-a-known-function-queued', len(puts) == 1 and not extra5, 'a received packet is dropped under %s' % extra5)
     rd_ = [s for s in walk_own(run.node) if isinstance(s, ast.Assign) and norm(s.targets[0]) == 'packet']
     ctx.inst('R5', run, 'one-read-per-iteration', len(rd_) == 1 and norm(rd_[0].value) == 'self._transport.readPacket()', 'one transport read per loop iteration')
     rcv = R.method('receivePacket')
@@ -246,6 +273,12 @@ def check(ctx):
         ctx.inst('R6', rn, 'downlink-split', okd, 'downlink: header = byte 0, payload = remaining bytes of the CPX payload')
         pq = [c for c in walk_own(rn.node) if method_call(c, 'put')]
         ctx.inst('R6', rn, 'downlink-queue', len(pq) == 1 and [norm(a) for a in pq[0].args] == ['pk'] and norm(pq[0].func.value) == 'self.in_queue', 'each tunnelled packet is queued once')
+        # every non-empty frame is passed on: the only condition besides the thread's own loop is "there is a header byte"
+        grn = cfg_of(rn)
+        pqn = grn.node_of(pq[0]) if len(pq) == 1 else None
+        extra = sorted(k for k in ((grn.fact_keys_at(pqn) - grn.sentinel_keys_at(pqn)) if pqn is not None else ()) if k not in (fact_key('len(data) > 0', True), fact_key('True', True), fact_key('self.sp', False),
+                                                                                                   fact_key('data', True), fact_key('len(data) >= 1', True)))
+        ctx.inst('R6', rn, 'every-frame-passed-on', pqn is not None and not extra, 'a tunnelled frame is dropped under %s (a full CRTP packet is 1 header + 30 payload bytes)' % extra)
 
     # observers stay observers: a debug line in the receive path must not call something that changes the router (transport() marks
     # the router as disconnected, the routing thread then stops queueing)
